@@ -16,8 +16,8 @@ RULE = ("every 2-variable letter combination (3 convex families, Hessian rot2; t
         "Hessians, n=1 too) x user letter {pure, scribble, samebuf} x scaler {None,0.37,3} x "
         "gradient mode {callable; None,2-point,3-point,cs on one family}; 12 non-convex "
         "objectives under tight budgets (maxls {1,3}, maxfun {4,9,3000}); all environment "
-        "runs with <=2 deviations among the first 6 points; restart chains of length <=3 on "
-        "the C06 base runs; oracle: for the result and every callback state with >=1 "
+        "runs with <=2 deviations among the first 6 points; restart chains of length <=3 (split points incl. 0, i.e. a "
+        "checkpoint without pairs) on the C06 base runs incl. the pair-less ones; oracle: for the result and every callback state with >=1 "
         "gradient computed, fun == s*(value the user returned at that x) and jac == "
         "s*(gradient the user returned at that x) BITWISE against the harness log, nfev == "
         "n0 + objective calls, njev == j0 + gradient calls; non-trivial = run with a "
@@ -55,7 +55,7 @@ def cases(tier, variants):
     mcs = (2, 5) if tier == "quick" else (1, 2, 3, 5)
     for b in H.base_runs(variants, maxcors=mcs):
         for r in (1, 2, 3):
-            for sp in itertools.combinations((1, 2, 4, 7), r):
+            for sp in itertools.combinations((0, 1, 2, 4, 7), r):
                 yield dict(b, part="chain", splits=list(sp))
 
 
